@@ -147,4 +147,20 @@ def heldCallsBeforeRelease : Bool → List (Nat × String) → Bool
 def slotCheck (f : String × List (Nat × String)) : Bool :=
   lookupUnderLock (slotHeldAtEntry.contains f.1) f.2 && heldCallsBeforeRelease false f.2
 
+/-! ### the granularity of journal objects
+
+The journal merges the sub-block objects of concurrent transactions when they commit and relies on
+every object being owned exclusively by the transaction that writes it.  The owners: of an inode
+slot (128 bytes at `Inum2Addr`) the holder of the inode's lock; of a whole block (data, index,
+directory) the holder of the lock of the inode that owns the block; of ONE BIT of a bitmap the
+transaction that holds the number from the in-memory allocator (`allocator_is_disk_plus_open_allocations`).
+Nothing owns a byte of a bitmap: eight numbers, up to eight transactions. -/
+def journalObjectsExpected : List (String × String × String) := [
+  ("alloctxn.WriteBits", "OverWrite", "1"),                  -- a bitmap bit: the allocator number
+  ("alloctxn.ReadBlock", "ReadBuf", "common.NBITBLOCK"),     -- a whole block of a locked inode
+  ("inode.WriteInode", "OverWrite", "common.INODESZ * 8"),   -- the inode's slot: the inode's lock
+  ("inode.Write", "OverWrite", "common.NBITBLOCK"),          -- a whole block of a locked inode
+  ("fstxn.GetInodeLocked", "ReadBuf", "common.INODESZ * 8")  -- the inode's slot: the inode's lock
+]
+
 end GoNfsd.Model.Skeleton
